@@ -31,6 +31,8 @@ var c16Shapes = []struct{ name, open, close string }{
 	{"mixed", `[{"k":`, "}]"},
 	{"spaced-arrays", " [ ", " ] "},
 	{"obj-arr", `{"a":[`, "]}"},
+	{"objects-space-after-colon", `{"k": `, "}"},
+	{"objects-ws-everywhere", "{ \"k\" :\r\n\t", " } "},
 }
 
 // bombInput: lead 0 none, 1 = 1 KiB of whitespace, 2 = the tower is the second
@@ -55,7 +57,7 @@ func bombInput(shape, depth int, closed bool, lead int) []byte {
 		sb.WriteString(s.open)
 	}
 	if closed {
-		if strings.HasSuffix(s.open, ":") || strings.HasSuffix(s.open, ": ") {
+		if strings.HasSuffix(strings.TrimSpace(s.open), ":") {
 			sb.WriteString("1")
 		}
 		for i := 0; i < depth; i++ {
@@ -177,7 +179,7 @@ func c16Run(c *core.Ctx) {
 						for entry := 0; entry <= 1; entry++ {
 							if d >= 1000000 && !c.Thorough() {
 								// quick: the largest bombs only in the modes the statement names
-								if lm > 1 || lead == 1 || (entry == 1 && lm != 0) || (d > 1000000 && si > 2) || (lead >= 2 && (lm != 0 || entry == 1)) {
+								if lm > 1 || lead == 1 || (entry == 1 && lm != 0) || (d > 1000000 && si > 2 && si < 5) || (lead >= 2 && (lm != 0 || entry == 1)) {
 									continue
 								}
 							}
